@@ -80,7 +80,7 @@ let run_a ?(multi = false) (live : bool) (ops : string list) : string =
       (match !since with
        | Some b -> since := None; do_op (OSnapLate (nat_of_int b))
        | None -> observe RNone)
-    | ["R"; _] | ["Y"; _] -> restarted := true; do_op ORestart
+    | ["R"; _] | ["Y"; _] | ["R0"; _] -> restarted := true; do_op ORestart
     | "W" :: c :: rest ->
       let ci = int_of_string c in
       if ci > !maxc then maxc := ci;
